@@ -111,11 +111,10 @@ func indexBoundedD(idx ssa.Value, use ssa.Instruction, depth int) (bool, string)
 				okRet := false
 				for _, f2 := range ir.ExpandFacts([]ir.Fact{{Cond: rv, Truth: fc.Truth, From: r.Block()}}) {
 					if belowLenFact(f2, func(v ssa.Value) bool {
-						p, isP := ir.ResolveCell(v).(*ssa.Parameter)
-						if !isP || p.Parent() != h {
-							return false
-						}
-						return ir.Sym(pc.Call.Args[paramIndex(p)]) == isym
+						// the tested value, a path rooted at a parameter of the helper (the position itself, or a
+						// field of a struct handed over by value), is the index in the caller's terms
+						s2, rooted := symInCaller(h, pc.Call.Args, ir.Sym(v))
+						return rooted && s2 == isym
 					}) {
 						okRet = true
 					}
